@@ -18,7 +18,7 @@ from mc import spaces as S
 from mc.registry import functionals as FR
 
 PROPERTY = 'C10'
-BUDGET = {'quick': 600, 'thorough': 3600}
+BUDGET = {'quick': 1500, 'thorough': 3600}
 
 TENS = ['rn3', 'rn3w2', 'ud3']
 TENS_T = ['rn3', 'rn3w2', 'rn3wa', 'ud3', 'ud3b', 'rn2x2', 'rn3f32']
